@@ -543,6 +543,9 @@ Proof.
   intros x Hx. apply Q_W; [reflexivity|]. apply Q_p_ident; exact Hx.
 Qed.
 
+Lemma Q_p_members_def l : ids_ok l = true -> Q (p_members_def l) = true.
+Proof. destruct l; [reflexivity|]. apply Q_p_members. Qed.
+
 Lemma Q_p_rootops l : rootops_ok l = true -> Q (p_rootops l) = true.
 Proof.
   unfold rootops_ok, p_rootops. intro H. apply Q_W; [reflexivity|]. apply Q_I. apply Q_app; [|repeat qstep].
@@ -571,7 +574,7 @@ Proof.
     apply Q_app; [apply (Q_p_body p_fielddef fielddef_ok); [exact Q_p_fielddef|assumption]|repeat qstep].
   - apply Q_app; [apply Q_p_desc; assumption|]. apply Q_W; [reflexivity|].
     apply Q_app; [apply Q_p_ident; assumption|]. apply Q_app; [apply Q_sp_dirs; assumption|].
-    apply Q_app; [apply Q_p_members; assumption|repeat qstep].
+    apply Q_app; [apply Q_p_members_def; assumption|repeat qstep].
   - apply Q_app; [apply Q_p_desc; assumption|]. apply Q_W; [reflexivity|].
     apply Q_app; [apply Q_p_ident; assumption|]. apply Q_app; [apply Q_sp_dirs; assumption|].
     apply Q_app; [apply (Q_p_body p_enumval enumval_ok); [exact Q_p_enumval|assumption]|repeat qstep].
